@@ -175,6 +175,8 @@ def gen(ctx):
     sub = None if rng.random() < 0.6 else int(rng.integers(max(3, len(coords) - 4), len(coords)))
     # seeds: 0 and NumPy integer scalars are seeds like any other
     seed = int(rng.choice([0, 0, 1, int(rng.integers(2, 10 ** 6))]))
+    if seed == 0 and sub is None and rng.random() < 0.7:
+        sub = max(3, len(coords) - 3)       # a seeded *subset* is what makes the seed observable
     return dict(coords=coords.tolist(), values=values.tolist(), kw=kw, n=sub, seed=seed,
                 seed_type=str(rng.choice(['int', 'int', 'int64', 'uint32'])))
 
